@@ -94,6 +94,9 @@ extra = {"C08": "yes: downloads after an abandoned earlier transfer on the same 
          "R21C11": "yes: `BeyondEndOk` - where the specification refuses a Block2 request because the block starts at or beyond the end of a non-empty body (cached, or just produced for a first request naming a later block) the code must refuse it too; directed `at-the-end` family (bodies of k*size-1, k*size, k*size+1 bytes, the probe at the same and at smaller sizes, the honest client continuing afterwards)",
          "R21C17": "yes: after `nth(j)` / `skip(j)` / `step_by(2)` on a fresh value iterator what follows is the rest of the characters in both unquoting paths (j = 0, 1, 2, n/2, n-1, n), not only the element returned",
          "R21C20": "yes: a transfer kept in use only by requests for its key that the handler refuses (oversize body without Block1), each gap below the expiry and the total above it; reclamation where the next use of the handler is a refused request (body or options beyond the budget)",
+         "R22C06": "yes: the typed setters / getters work on numbers drawn per episode from every registered option number and a few unregistered ones (no number is special to the typed API), strings with ASCII upper case",
+         "R22C08": "yes: application replies whose options hold several values - the same value twice, an empty one in between, repeated ETags (option sets 6 and 7 of the drivers; set 1 of `MC_BlockTransfer`)",
+         "R22C09": "yes: the method is no longer held constant - uploads by PUT, POST, FETCH, PATCH, iPATCH (one per transfer), oversize requests without Block1 under every method 1..7, downloads answering GET, FETCH, POST, DELETE",
          "R4C12": "yes: the two entry points of an exchange as separate steps with equal message ids on different endpoints (model MODE split, deferred responses in the mixed driver); a disturbed other key is reported under C12 in every branch",
          "C20": "yes: expiry under block-wise traffic on other keys (model `Other` now block-wise; driver scenario `expiry-traffic`)"}
 for d in sorted(glob.glob(os.path.join(ROOT, "seeded", "*", "meta.json"))):
